@@ -30,7 +30,9 @@ RULE = ('base: all (file, result time, exposed table, printed row, column) cells
         'column) x 6 width-preserving forms (negative taking the separating blank, negative dropping the leading zero, '
         'zero, -1dd and +1dd exponent without E, widest = negative all-nines with -1dd exponent) x 4 scopes (all rows all '
         'times, all rows at times > 0, first row at time 0, last row at last time), every cell of every table at every '
-        'time re-compared.  Every opened file is read forwards and then backwards; the unperturbed file also with every '
+        'time re-compared; pair: ordered pairs (A, B) of shipped files, including A = B, both opened and alive, every '
+        'time of A then of B read forwards and backwards, every exposed cell compared with the reference and the '
+        'untouched listing compared with its snapshot at every arrival.  Every opened file is read forwards and then backwards; the unperturbed file also with every '
         'time reached from index 0 by its negative index / last().  A case is one compared cell (base), one (subset, time, table) comparison (skip) or one variant '
         'file (perturbed); non-trivial = it involves at least one printed number (base/skip) or at least one replaced '
         'cell (perturbed); distinct = distinct (file, time, table, row, column) / (file, subset, time, table) / (file, '
@@ -65,6 +67,8 @@ LEVEL_TEXT = ('Every cell of every exposed table at every result time of every s
 READING_ORDERS = ('base: after opening, index = 1..n-1, then prev() down to the first time, then every time reached from index 0 by '
                   'its negative index and the last time by last() (index 0 re-read in between); skip and perturbed: after '
                   'opening, index = 1..n-1, then prev() down to the first time; all tables are compared at every arrival')
+BOUNDS['quick']['pairs'] = 'all 36 ordered pairs (incl. the same file twice) of one representative file per simulator directory'
+BOUNDS['thorough']['pairs'] = 'all ordered pairs (incl. the same file twice) of the representatives and all files smaller than 300 kB'
 BOUNDS['quick']['reading_orders'] = READING_ORDERS
 BOUNDS['thorough']['reading_orders'] = READING_ORDERS
 LEVEL_NOTE = ('Trusted: ref/listtok.py (structure and tokens) and ref/fortnum.py (values). Only the shipped files and their '
@@ -309,12 +313,42 @@ def route(n, orders):
     return steps
 
 
+def walk(ctx, lst, on_table, orders, stage, on_arrival=None):
+    """Follows route(...) on an opened listing and calls on_table(ti, name, libtable, how) for every exposed
+    table at every result time reached (and on_arrival(ti, how) after them).  stage: 1-element list holding
+    a description of the current step.  -> None or (clause, text)"""
+    for how, action, arg, ti in route(ctx.nsets, orders):
+        stage[0] = '%s %s%s -> time %d' % (how, action, '' if arg is None else ' = %d' % arg, ti)
+        if action != 'open':
+            try:
+                with contextlib.redirect_stdout(io.StringIO()):
+                    if action == 'index':
+                        lst.index = arg
+                    elif action == 'prev':
+                        lst.prev()
+                    else:
+                        lst.last()
+            except (ReadBudgetExceeded, core.CaseTimeout):
+                raise
+            except Exception as e:
+                return ('step-raises:' + msgclass(e), '%s raised %s: %s' % (stage[0], type(e).__name__, str(e)[:200]))
+        for name in list(lst._tablenames):
+            r = on_table(ti, name, lst._table[name], how)
+            if r:
+                return (r[0] + ('' if how == 'forward' else '@' + how), '%s: %s' % (stage[0], r[1]))
+        if on_arrival is not None:
+            r = on_arrival(ti, how)
+            if r:
+                return (r[0], '%s: %s' % (stage[0], r[1]))
+    return None
+
+
 def visit(ctx, path, skip, on_table, on_open=None, orders=('backward',)):
     """Opens path with the library (guarded), follows route(...) and calls on_table(ti, name, libtable, how)
     for every exposed table at every result time reached.  -> None or (clause, text)."""
+    stage = ['open']
     try:
         with core.timelimit(CASE_SECONDS):
-            stage = 'open'
             try:
                 lst = open_listing(path, skip, ctx.budget)
             except (ReadBudgetExceeded, core.CaseTimeout):
@@ -329,34 +363,111 @@ def visit(ctx, path, skip, on_table, on_open=None, orders=('backward',)):
                         return r
                 if lst.num_fulltimes != ctx.nsets:
                     return ('result-times', 'reader finds %d result times, %d are printed' % (lst.num_fulltimes, ctx.nsets))
-                for how, action, arg, ti in route(ctx.nsets, orders):
-                    stage = '%s %s%s -> time %d' % (how, action, '' if arg is None else ' = %d' % arg, ti)
-                    if action != 'open':
-                        try:
-                            with contextlib.redirect_stdout(io.StringIO()):
-                                if action == 'index':
-                                    lst.index = arg
-                                elif action == 'prev':
-                                    lst.prev()
-                                else:
-                                    lst.last()
-                        except (ReadBudgetExceeded, core.CaseTimeout):
-                            raise
-                        except Exception as e:
-                            return ('step-raises:' + msgclass(e), '%s raised %s: %s' % (stage, type(e).__name__, str(e)[:200]))
-                    for name in list(lst._tablenames):
-                        r = on_table(ti, name, lst._table[name], how)
-                        if r:
-                            return (r[0] + ('' if how == 'forward' else '@' + how), '%s: %s' % (stage, r[1]))
+                return walk(ctx, lst, on_table, orders, stage)
             finally:
                 close_listing(lst)
     except ReadBudgetExceeded as e:
         close_last()
-        return ('nontermination', '%s at %s (budget 20 x lines x (result sets + 2))' % (e, stage))
+        return ('nontermination', '%s at %s (budget 20 x lines x (result sets + 2))' % (e, stage[0]))
     except core.CaseTimeout as e:
         close_last()
-        return ('timeout', '%s at %s' % (e, stage))
+        return ('timeout', '%s at %s' % (e, stage[0]))
+
+
+# ------------------------------------------------------------------------------------------ two listings alive at once
+
+def snapshot(lst):
+    return dict((n, (list(lst._table[n].row_name), list(lst._table[n].column_name), lst._table[n]._data.copy()))
+                for n in lst._tablenames)
+
+
+def differs_from_snapshot(lst, snap):
+    """None, or text: what the listing shows now against what it showed when the snapshot was taken."""
+    import numpy as np
+    if list(lst._tablenames) != list(snap):
+        return 'tables %r, were %r' % (list(lst._tablenames), list(snap))
+    for n in snap:
+        t = lst._table[n]
+        rn, cn, d = snap[n]
+        if t.row_name != rn or t.column_name != cn:
+            return 'row or column names of table %s changed' % n
+        if not np.array_equal(t._data, d, equal_nan=True):
+            k = np.argwhere(~((t._data == d) | ((t._data != t._data) & (d != d))))
+            i, j = (int(x) for x in k[0])
+            return 'table %s row %d column %d shows %r, showed %r' % (n, i, j, float(t._data[i, j]), float(d[i, j]))
     return None
+
+
+def check_pair(ctxA, ctxB, rec):
+    """Opens A, then B, both stay alive.  Every time of A is read (forwards and back) and every exposed cell
+    compared with the reference, while B must go on showing what it showed (snapshot); then the same with
+    the roles exchanged.  ctxB may be ctxA (the same file opened twice)."""
+    viol = []
+    case = {'kind': 'pair', 'file': ctxA.rel, 'other': ctxB.rel}
+    same_file = ctxA.rel == ctxB.rel
+    stage = ['open']
+    opened = []
+    try:
+        with core.timelimit(CASE_SECONDS):
+            try:
+                for ctx in (ctxA, ctxB):
+                    stage[0] = 'open %s' % ctx.rel
+                    opened.append(open_listing(ctx.path, None, ctx.budget))
+            except (ReadBudgetExceeded, core.CaseTimeout):
+                raise
+            except Exception as e:
+                close_last()
+                viol.append(('C05|pair|open-raises:%s|%s|with=%s' % (msgclass(e), ctxA.sim, ctxB.sim),
+                             '%s: raised %s: %s' % (stage[0], type(e).__name__, str(e)[:200]), case))
+                return viol
+            roles = [(ctxA, opened[0], 'opened-first', ctxB, opened[1]), (ctxB, opened[1], 'opened-second', ctxA, opened[0])]
+            for ctx, lst, role, octx, olst in roles:
+                other = 'same-file' if same_file else octx.sim
+                if lst.num_fulltimes != ctx.nsets:
+                    viol.append(('C05|pair|result-times|%s|with=%s|%s' % (ctx.sim, other, role),
+                                 '%s (%s, other listing %s): reader finds %d result times, %d are printed'
+                                 % (ctx.rel, role, octx.rel, lst.num_fulltimes, ctx.nsets), case))
+                    continue
+                osnap = snapshot(olst)
+
+                def on_table(ti, name, lt, how, ctx=ctx, role=role):
+                    exp = ctx.exp[ti].get(name)
+                    if exp is None or exp.width > lt.num_columns:
+                        return None
+                    r = compare_table(exp, exp.array(lt.num_columns), lt)
+                    if rec is not None:
+                        rec.bulk(lt._data.size, [core.h64((ctxA.rel, ctxB.rel, role, ti, name, how))],
+                                 outcome='pair-cells-compared')
+                        rec.count('pair_cells_compared', lt._data.size)
+                    if r:
+                        return (r[0] + '|' + name, 'time %d table %s: %s' % (ti, name, r[1]))
+                    return None
+
+                def on_arrival(ti, how, olst=olst, osnap=osnap):
+                    d = differs_from_snapshot(olst, osnap)
+                    if rec is not None:
+                        rec.case((ctxA.rel, ctxB.rel, role, ti, how, 'other-unchanged'), outcome='pair-other-unchanged-compared')
+                    if d:
+                        return ('other-listing-changed', 'the other listing (%s), not touched, changed: %s' % (octx.rel, d))
+                    return None
+
+                r = walk(ctx, lst, on_table, ('backward',), stage, on_arrival)
+                if r:
+                    clause, _, table = r[0].partition('|')
+                    if '@' in table:                       # route suffix was appended after the table name
+                        table, _, hw = table.partition('@')
+                        clause += '@' + hw
+                    viol.append(('C05|pair|%s|%s|%s|with=%s|%s' % (clause, ctx.sim, table or '-', other, role),
+                                 '%s (%s; other listing alive: %s): %s' % (ctx.rel, role, octx.rel, r[1]), case))
+    except ReadBudgetExceeded as e:
+        viol.append(('C05|pair|nontermination|%s|with=%s' % (ctxA.sim, ctxB.sim), '%s at %s' % (e, stage[0]), case))
+    except core.CaseTimeout as e:
+        viol.append(('C05|pair|timeout|%s|with=%s' % (ctxA.sim, ctxB.sim), '%s at %s' % (e, stage[0]), case))
+    finally:
+        for l in opened:
+            close_listing(l)
+        close_last()
+    return viol
 
 
 def check_base(ctx, rec, with_addressing=True, orders=('backward', 'negative')):
@@ -744,11 +855,34 @@ def table_names(ctx):
 
 # ------------------------------------------------------------------------------------------ check interface
 
+def representatives(shape):
+    """One file per simulator directory for the two-listings dimension: most result times (up to 2), then most
+    tables (up to 2), then smallest.  shape: {rel: (size, result times, tables)}"""
+    best = {}
+    for rel in sorted(shape):
+        size, nt, ntab = shape[rel]
+        k = (-min(nt, 2), -min(ntab, 2), size, rel)
+        sim = rel.split('/')[0]
+        if sim not in best or k < best[sim][0]:
+            best[sim] = (k, rel)
+    return [best[sim][1] for sim in sorted(best)]
+
+
+def pair_units(tier, shape):
+    reps = representatives(shape)
+    files = list(reps)
+    if tier != 'quick':
+        files = sorted(set(reps) | set(rel for rel in shape if shape[rel][0] < QUICK_SIZE))
+    return [('pair', a, b) for a in files for b in files]
+
+
 def units(tier):
     us = []
+    shape = {}
     for rel, size in listing_files():
         us.append(('base', rel))
         sets = listtok.scan(listtok.read_lines(os.path.join(listing_root(), rel)))
+        shape[rel] = (size, len(sets), max([len(rs.tables) for rs in sets] or [0]))
         ncol, widths = {}, {}
         for rs in sets:
             for t in rs.tables:
@@ -761,7 +895,7 @@ def units(tier):
                 continue
             for col in range(ncol[name]):
                 us.append(('pert', rel, name, col))
-    return us
+    return us + pair_units(tier, shape)
 
 
 def scopes_of(tier, ctx):
@@ -775,6 +909,12 @@ def run_unit(unit, tier, rec):
     core.load_library()
     kind, rel = unit[0], unit[1]
     ctx = Ctx(rel)
+    if kind == 'pair':
+        other = ctx if unit[2] == rel else Ctx(unit[2])
+        for s, w, c in check_pair(ctx, other, rec):
+            rec.violation(s, w, c)
+        rec.count('listing_pairs', 1)
+        return
     if kind == 'base':
         viol, snap, names = check_base(ctx, rec)
         for s, w, c in viol:
@@ -817,6 +957,9 @@ def run_unit(unit, tier, rec):
 def replay(case):
     core.load_library()
     ctx = Ctx(case['file'])
+    if case['kind'] == 'pair':
+        other = ctx if case['other'] == case['file'] else Ctx(case['other'])
+        return [(s, w) for s, w, c in check_pair(ctx, other, None)]
     viol, snap, names = check_base(ctx, None)
     if case['kind'] == 'base':
         return [(s, w) for s, w, c in viol]
